@@ -122,6 +122,31 @@ def name_probe():
                 c.close()
             except Exception:
                 pass
+        # DjangoCache.memoize(version=N): look-up and store must use the same version, so that two
+        # functions memoized under different versions never answer for one another
+        from diskcache.djangocache import DjangoCache
+        dj = DjangoCache(os.path.join(d, 'dj'), {'SHARDS': 2})
+
+        def f1(x):
+            return ('v1', x)
+
+        def f2(x):
+            return ('v2', x)
+        g2 = dj.memoize(name='g', version=2)(f2)
+        g1 = dj.memoize(name='g', version=1)(f1)
+        ran = []
+
+        def f3(x):
+            ran.append(x)
+            return ('v3', x)
+        g3 = dj.memoize(name='h', version=3)(f3)
+        a2, a1 = g2(7), g1(7)
+        g3(1), g3(1)
+        if a1 != ('v1', 7) or a2 != ('v2', 7):
+            bad.append('DjangoCache.memoize(version=1) and (version=2) under one name share an entry: g1(7) -> %r, g2(7) -> %r' % (a1, a2))
+        if ran != [1]:
+            bad.append('DjangoCache.memoize(version=3): the repeated call ran the function again (%r): stored and looked up under different versions' % (ran,))
+        dj.close()
     finally:
         shutil.rmtree(d, ignore_errors=True)
     return bad
